@@ -208,10 +208,16 @@ def cmd_text(ws, l):
     if t.get("raw"):
         return "printf '%s\\n' " + q(l) + ' >> "$VERIF_TRACE"\n' + t["raw"]
     L = [": " + q(t["salt"]), "printf '%s\\n' " + q(l) + ' >> "$VERIF_TRACE"']
-    if t.get("beh", 0) == 1:
+    beh = t.get("beh", 0)
+    if beh == 1:
         L.append("exit 3")
-    if t.get("beh", 0) == 2:
+    if beh == 2:
         L.append("sleep 3")
+    if beh >= 3:
+        # the script ENDS with a statement whose failure `set -e` does not turn into an abort (or a subshell / child exit):
+        # the exit status of the script is the status of that last statement
+        L.append({3: "false && true", 4: "! true", 5: "(exit 3)", 6: "sh -c 'exit 4'"}.get(beh, "exit 5"))
+        return "\n".join(L)
     L.append('W="$GROG_WORKSPACE_ROOT"')
     L.append('c="$(mktemp)"')
     lst = []
@@ -276,9 +282,13 @@ def cmd_text(ws, l):
 
 
 def check_cmd(chk):
+    f = '"$GROG_WORKSPACE_ROOT/' + chk["flag"] + '"'
+    form = chk.get("form", 0)
     if chk["exp"] is None:
-        return {"command": 'test -f "$GROG_WORKSPACE_ROOT/' + chk["flag"] + '"'}
-    return {"command": 'cat "$GROG_WORKSPACE_ROOT/' + chk["flag"] + '"', "expected_output": chk["exp"].strip()}
+        # shell-level variety: a failing non-final element of an && list and a negated pipeline do not trigger `set -e`;
+        # the status of the check is the status of that last statement
+        return {"command": {0: "test -f " + f, 1: "test -f " + f + " && true", 2: "! test ! -f " + f}[form % 3]}
+    return {"command": {0: "cat " + f, 1: "test -f " + f + " && cat " + f}[form % 2], "expected_output": chk["exp"].strip()}
 
 
 def build_files(ws):
@@ -797,7 +807,7 @@ def gen_ws(rng, n=None, aliases=True, dirs=True, multi_out=True, nocache_p=0.0, 
             for ci in range(nchk):
                 flag = "ext/%s%s.flag" % (name, "" if ci == 0 else "_%d" % ci)
                 exp = rng.choice([None, "ok\n"])
-                t["checks"].append({"flag": flag, "exp": exp})
+                t["checks"].append({"flag": flag, "exp": exp, "form": rng.randint(0, 5)})
                 if own:
                     t["sets"].append([flag, "ok\n"])
                 else:
@@ -1027,7 +1037,7 @@ def gen_edit(rng, ws, kinds=None):
         ws["files"][f] = "ok\n" if k == "flagon" else "no\n"
         return ws, [], ("establish" if k == "flagon" else "spoil") + " external condition %s" % f
     if k == "beh":
-        t["beh"] = rng.choice([1, 1, 2, 2]) if t.get("beh", 0) == 0 else 0
+        t["beh"] = rng.choice([1, 2, 2, 3, 3, 4, 4, 5, 6]) if t.get("beh", 0) == 0 else 0
         return ws, [], "behaviour of %s := %d" % (l, t["beh"])
     if k == "skipout":
         if t.get("skip"):
@@ -1067,7 +1077,7 @@ def gen_edit(rng, ws, kinds=None):
         if t.get("checks"):
             t["checks"] = []
             return ws, [], "remove checks of %s" % l
-        t["checks"] = [{"flag": flag, "exp": rng.choice([None, "ok\n"])}]
+        t["checks"] = [{"flag": flag, "exp": rng.choice([None, "ok\n"]), "form": rng.randint(0, 5)}]
         return ws, [], "add check to %s" % l
     return None
 
@@ -1118,6 +1128,8 @@ def gen_history(rng, family="mixed", nsteps=None, full=False, minimal=None):
         kw["nocache_p"] = 0.3
     if family == "checks":
         kw.update(checks_p=0.6, multicheck=True, multi_out=True, dir_p=0.5)
+    if family == "taintfail":
+        kw.update(checks_p=0.7, multicheck=False)
     if family in ("outless", "taintdis"):
         kw.update(outless_p=0.4, nocache_p=0.25)
     if family == "tool":
@@ -1237,6 +1249,38 @@ def gen_history(rng, family="mixed", nsteps=None, full=False, minimal=None):
         return hist
     for _ in range(n):
         r = rng.random()
+        if family == "taintfail" and r < 0.75:
+            # a tainted target runs but FAILS (its checked condition is gone / its command fails); the taint must survive
+            # that run: after the cause is removed the target has to run again although its old cache entry is valid
+            order_ = sorted(cur["targets"], key=lambda x: int(cur["targets"][x]["name"][1:]))
+            roots = [x for x in order_ if not rdeps(cur, x) and not cur["targets"][x].get("nocache")]
+            if roots:
+                x = rng.choice(roots)
+                ext = [c["flag"] for c in cur["targets"][x].get("checks", []) if c["flag"] in cur["files"]
+                       and not any(c["flag"] == p_ for p_, _ in cur["targets"][x].get("sets", []))]
+                hist["steps"].append({"k": "taint", "patterns": [x]})
+                if ext and rng.random() < 0.6:
+                    f = rng.choice(ext)
+                    keep = cur["files"][f]
+                    off = copy.deepcopy(cur)
+                    del off["files"][f]
+                    hist["steps"].append({"k": "edit", "ws": off, "writes": [[f, None]], "what": "destroy external condition %s" % f})
+                    build(["//..."])
+                    on = copy.deepcopy(off)
+                    on["files"][f] = keep
+                    hist["steps"].append({"k": "edit", "ws": on, "writes": [], "what": "establish external condition %s" % f})
+                    cur = on
+                else:
+                    bad = copy.deepcopy(cur)
+                    bad["targets"][x]["beh"] = rng.choice([1, 3, 4])
+                    hist["steps"].append({"k": "edit", "ws": bad, "writes": [], "what": "behaviour of %s := %d (fails)" % (x, bad["targets"][x]["beh"])})
+                    build(["//..."])
+                    hist["steps"].append({"k": "edit", "ws": cur, "writes": [], "what": "behaviour of %s := 0 again" % x})
+                versions.append(cur)
+                build(["//..."])
+                if rng.random() < 0.5:
+                    build(["//..."])
+                continue
         if family == "samehash" and r < 0.7:
             # add / remove ONE of several dependencies whose output hashes are equal (output-less no-cache targets)
             gs = sorted(x for x in cur["targets"] if cur["targets"][x]["pkg"].startswith("g") and not cur["targets"][x]["outs"])
